@@ -173,6 +173,25 @@ func consumeMux(srv *lime.ServerChannel, cli *lime.ClientChannel, work [][]c04It
 		rec(3, q.ID, docText(q.Resource))
 		return nil
 	})
+	// a second handler of every kind that accepts everything as well, registered behind the first (the usual layout:
+	// a specific handler, then a catch-all): the first one took the envelope, so this one is never handed it - if
+	// it is, the envelope was delivered twice
+	mux.MessageHandlerFunc(nil, func(ctx context.Context, m *lime.Message, s lime.Sender) error {
+		rec(0, m.ID, docText(m.Content))
+		return nil
+	})
+	mux.NotificationHandlerFunc(nil, func(ctx context.Context, n *lime.Notification) error {
+		rec(1, n.ID, n.Metadata["p"])
+		return nil
+	})
+	mux.RequestCommandHandlerFunc(nil, func(ctx context.Context, q *lime.RequestCommand, s lime.Sender) error {
+		rec(2, q.ID, docText(q.Resource))
+		return nil
+	})
+	mux.ResponseCommandHandlerFunc(nil, func(ctx context.Context, q *lime.ResponseCommand, s lime.Sender) error {
+		rec(3, q.ID, docText(q.Resource))
+		return nil
+	})
 	for round := 0; ; round++ {
 		select {
 		case <-stop:
@@ -322,6 +341,11 @@ func runC04Impatient(seed int64) (*c04Case, error) {
 			size := 20
 			if t < patient {
 				size = 9000 + 3000*((int(seed)+t+i)%4)
+			}
+			if seed%2 == 1 && t == patient && i == 2 {
+				// an impatient sender with an envelope several times the connection's buffer: its context ends in the
+				// middle of the write, part of the envelope is on the wire for good
+				size = 30000
 			}
 			plan[t] = append(plan[t], c04Item{Kind: (t + i) % 4, Size: size})
 		}
